@@ -2,6 +2,7 @@
 from __future__ import annotations
 
 import json
+import os
 import random
 import re
 
@@ -37,15 +38,52 @@ def excluded_for_cxx(f):
     return sorted(bad)
 
 
-def crash_sig(c):
+def _enclosing(header_path, line):
+    """(class, function) enclosing a line of a generated header, read off its text: the fallback when the
+    sanitizer's stack could not be symbolized (llvm-symbolizer starved on a loaded machine)"""
+    try:
+        text = open(header_path, errors="replace").read().split("\n")
+    except OSError:
+        return None, None
+    fn = cls = None
+    for i in range(min(line, len(text)) - 1, -1, -1):
+        ln = text[i]
+        if fn is None:
+            mm = re.match(r"\s+(?:static\s+)?[\w:<>,\s\*&]+?\b(\w+)\s*\([^;]*\)\s*(?:const\s*)?(?:override\s*)?\{\s*$", ln)
+            if mm and mm.group(1) not in ("if", "for", "while", "switch"):
+                fn = mm.group(1)
+        mm = re.match(r"(?:class|struct)\s+(\w+)", ln)
+        if mm:
+            cls = mm.group(1)
+            break
+    return cls, fn
+
+
+def crash_sig(c, header_dir=None):
+    """kind : what | where - `where` names the generated function by role (View::Parse, Struct::Parse,
+    View::Get*, Builder::*), from the symbolized frame when there is one and from the header text otherwise,
+    so that the same crash has the same key whether or not the symbolizer got to run"""
     kind = c.get("kind", "?")
     rep = c.get("report", "") or ""
     frame = c.get("gen_frame") or c.get("top_frame") or ""
-    # function name of the first frame in generated code / runtime, identifiers normalized
-    fn = re.sub(r"\b[A-Z]\d+\b|\b[a-z]\d+\b", "ID", str(frame))
-    fn = re.sub(r"pvg_\w+", "NS", fn)
-    fn = re.sub(r":\d+(:\d+)?", "", fn)
-    fn = re.sub(r"\d+", "N", fn)[:80]
+    cls = fn = None
+    mm = re.search(r"(\w+)::(\w+)\(", str(frame))
+    if mm:
+        cls, fn = mm.group(1), mm.group(2)
+    else:
+        mm = re.match(r"(\S+\.h):(\d+)", str(frame)) or re.search(r"(/\S+\.h):(\d+):\d+: runtime error", rep)
+        if mm:
+            path = mm.group(1)
+            if not os.path.isabs(path) and header_dir:
+                path = os.path.join(header_dir, path)
+            cls, fn = _enclosing(path, int(mm.group(2)))
+    if cls and fn:
+        role = "View" if cls.endswith("View") else "Builder" if cls.endswith("Builder") else "Struct"
+        where = "%s::%s" % (role, "Get*" if fn.startswith("Get") and fn != "GetSize" else fn)
+    elif "packet_runtime.h" in str(frame):
+        where = "packet_runtime.h"
+    else:
+        where = "?"
     what = ""
     mm = re.search(r"runtime error: ([^\n]+)", rep)
     if mm:
@@ -56,7 +94,7 @@ def crash_sig(c):
             what = mm.group(1)
         elif c.get("assertion"):
             what = "assert:" + re.sub(r"\d+", "N", str(c["assertion"]))[:60]
-    return "%s:%s|%s" % (kind, what, fn)
+    return "%s:%s|%s" % (kind, what, where)
 
 
 def worker(task):
@@ -116,7 +154,7 @@ def worker(task):
             case = {"type": tid, "op": "serialize", "value": v, "expected_hex": want, "flavour": fl}
             if "crash" in e:
                 res["crash_kinds"][e["crash"].get("kind")] = res["crash_kinds"].get(e["crash"].get("kind"), 0) + 1
-                V("C14", "serialize-crash:%s" % crash_sig(e["crash"]), dict(case, observed=_short_crash(e["crash"])))
+                V("C14", "serialize-crash:%s" % crash_sig(e["crash"], h.dir), dict(case, observed=_short_crash(e["crash"])))
                 continue
             if "error" in e or "hex" not in e:
                 continue  # value not expressible through the generated constructors
@@ -178,7 +216,7 @@ def worker(task):
             if "crash" in r:
                 k = r["crash"].get("kind")
                 res["crash_kinds"][k] = res["crash_kinds"].get(k, 0) + 1
-                V("C14", "parse-crash:%s" % crash_sig(r["crash"]), dict(case, observed=_short_crash(r["crash"])))
+                V("C14", "parse-crash:%s" % crash_sig(r["crash"], h.dir), dict(case, observed=_short_crash(r["crash"])))
                 continue
             if "valid" not in r:
                 continue
@@ -213,7 +251,7 @@ def worker(task):
             for (tid, b), r in zip(sample, outs):
                 res["evals"] += 1
                 if "crash" in r and r["crash"].get("kind") == "valgrind":
-                    V("C14", "valgrind:%s" % crash_sig(r["crash"]), {"type": tid, "hex": b.hex(), "observed": _short_crash(r["crash"])})
+                    V("C14", "valgrind:%s" % crash_sig(r["crash"], h.dir), {"type": tid, "hex": b.hex(), "observed": _short_crash(r["crash"])})
         except CX.CxxError:
             pass
     for rep in h.exit_reports[:2]:
